@@ -260,6 +260,18 @@ judge("ksr", ("x" * 30000 + KSR9).encode(), "shape:long-prolog", POL9, expect="o
 judge("ksr", ("<KSR>" + "<Request>" * 3000 + "</KSR>").encode(), "shape:unclosed-many")
 judge("ksr", ("<KSR>" + "<a>1</a>" * 8000 + "</KSR>").encode(), "shape:siblings-64k")
 judge("ksr", ("<KSR" + " " * 2000 + "\n>x</KSR>").encode(), "shape:ws-run-2k")
+# field contents that invite backtracking or unbounded conversion: every text field of a signed KSR/SKR in turn
+import re as _re
+FIELD_TAGS = ["PublishSafety", "MaxSignatureValidity", "MinValidityOverlap", "Inception", "Expiration", "TTL", "Flags", "Algorithm", "PublicKey", "SignatureData", "KeyTag", "SignersName"]
+FIELD_VALUES = ["P" + "1" * 28 + "X", "P" + "7" * 4000 + "!", "PT" + "1" * 40 + "Z", "P" + "1D" * 3000, "P" + "T" * 5000, "P" + "1" * 30 + "W" + "2" * 30 + "Q", "9" * 5000,
+                "2026-01-01T" + "0" * 3000, "A" * 4001, "=" * 3000, "1" * 26 + "e" + "1" * 26, "P1" + "\u0661" * 30 + "D"]
+for kind_, doc_, opts_ in (("ksr", KSR9, POL9), ("skr", SKR9, None)):
+    for tag in FIELD_TAGS:
+        for vi, val in enumerate(FIELD_VALUES if TIER == "thorough" else FIELD_VALUES[:3] + R.sample(FIELD_VALUES[3:], 3)):
+            m = _re.search(f"<{tag}>[^<]*</{tag}>", doc_)
+            if not m:
+                continue
+            judge(kind_, (doc_[:m.start()] + f"<{tag}>{val}</{tag}>" + doc_[m.end():]).encode(), f"field:{kind_}:{tag}:{val[:12]}..{len(val)}", opts_)
 # size cap: exactly 1 MiB is read, one byte more is refused before reading
 pad = lambda doc, n: (doc + " " * (n - len(doc.encode()))).encode()
 judge("ksr", pad(KSR9, 1024 * 1024), "size:exactly-1MiB", POL9, expect="object")
